@@ -1,0 +1,54 @@
+//go:build verif
+
+// Contracts for package utils, checked by /verif/govc (see /verif/DESIGN.md).
+// Comments and import anchors only; compiled only with -tags verif.
+package utils
+
+import (
+	openfgav1 "github.com/openfga/api/proto/openfga/v1"
+)
+
+var _ *openfgav1.Userset
+
+// ---------------------------------------------------------------------------------------------------------------
+// C16: line lookups. A line *declares* name under keyword kw when, after trimming, it starts with kw, one space, the
+// name, and the name ends there (the next character, if any, is not an identifier character of the DSL lexer).
+
+//@ spec declares(line string, kw string, name string) bool =
+//@   let t = trimSpace(line), p = kw + " " + name ::
+//@     hasPrefix(t, p) && (len(t) == len(p) || !inre(substr(t, len(p), 1), re("^[A-Za-z0-9_./-]$")))
+
+//@ func GetTypeLineNumber
+//@   props C16
+//@   ensures in_range:  -1 <= result && result < len(lines)
+//@   ensures declares_exactly: result >= 0 ==> declares(lines[result], "type", typeName)
+//@   ensures least:     forall j int :: 0 <= j && j < ite(result >= 0, result, len(lines)) ==> !declares(lines[j], "type", typeName)
+
+//@ func GetExtendedTypeLineNumber
+//@   props C16
+//@   ensures in_range:  -1 <= result && result < len(lines)
+//@   ensures declares_exactly: result >= 0 ==> declares(lines[result], "extend type", typeName)
+//@   ensures least:     forall j int :: 0 <= j && j < ite(result >= 0, result, len(lines)) ==> !declares(lines[j], "extend type", typeName)
+
+//@ func GetConditionLineNumber
+//@   props C16
+//@   ensures in_range:  -1 <= result && result < len(lines)
+//@   ensures declares_exactly: result >= 0 ==> declares(lines[result], "condition", conditionName)
+//@   ensures least:     forall j int :: 0 <= j && j < ite(result >= 0, result, len(lines)) ==> !declares(lines[j], "condition", conditionName)
+
+//@ func GetRelationLineNumber
+//@   props C16
+//@   ensures in_range:  -1 <= result && result < len(lines)
+//@   ensures declares_exactly: result >= 0 ==> declares(lines[result], "define", relation)
+//@   ensures least:     forall j int :: 0 <= j && j < ite(result >= 0, result, len(lines)) ==> !declares(lines[j], "define", relation)
+
+// ConstructLineAndColumnData: the reported span lies on the requested line and, when the symbol occurs in the line,
+// on an occurrence of the symbol.
+//@ func ConstructLineAndColumnData
+//@   props C16
+//@   requires -1 <= lineIndex && lineIndex < len(lines)
+//@   ensures none:  len(lines) == 0 || lineIndex == -1 ==> result0.Start == 0 && result0.End == 0 && result1.Start == 0 && result1.End == 0
+//@   ensures line:  len(lines) != 0 && lineIndex != -1 ==> result0.Start == lineIndex && result0.End == lineIndex
+//@   ensures width: len(lines) != 0 && lineIndex != -1 ==> result1.End == result1.Start + len(symbol) && 0 <= result1.Start
+//@   ensures on_symbol: len(lines) != 0 && lineIndex != -1 && contains(lines[lineIndex], symbol)
+//@                        ==> substr(lines[lineIndex], result1.Start, len(symbol)) == symbol && result1.End <= len(lines[lineIndex])
